@@ -11,7 +11,7 @@ import sys
 import time
 
 src, n, ev = sys.argv[1], sys.argv[2], sys.argv[3]
-wt = "/tmp/mut_eval"          # the tool's own scratch worktree (never an agent's)
+wt = os.environ.get("EVAL_WT", "/tmp/mut_eval")          # the tool's own scratch worktree (never an agent's)
 props = sys.argv[4:] or ["C%02d" % i for i in range(1, 21)]
 out = {"source": src, "n": n}
 env = dict(os.environ, PYTHONPATH=wt)
